@@ -43,11 +43,20 @@ pub fn zinc_value_over<R: Read>(r: &mut R) -> Result<Value, std::io::Error> {
 /// Drains the lazy row iterator the way `parse_grid` does: stop at the first error.
 pub fn zinc_rows_over<R: Read>(r: &mut R, max_items: usize, mut on_item: impl FnMut(usize, &Result<Dict, std::io::Error>)) -> Result<usize, std::io::Error> {
     let mut p = Parser::make(r)?;
-    let it = parse_grid_iterator(&mut p)?;
+    let mut it = parse_grid_iterator(&mut p)?;
     let mut n = 0;
-    for item in it {
+    while let Some(item) = it.next() {
         on_item(n, &item);
-        item?;
+        if let Err(e) = item {
+            // a caller that skips a damaged row and carries on: the calls after an error must
+            // return as well (what they return is not checked: the iterator is not fused)
+            for _ in 0..3 {
+                if it.next().is_none() {
+                    break;
+                }
+            }
+            return Err(e);
+        }
         n += 1;
         if n > max_items {
             return Err(std::io::Error::other("VERIF: iterator yielded more rows than the document has bytes"));
@@ -434,6 +443,16 @@ pub fn random_read_plan(rng: &mut Rng, len: usize, tokens: &[(usize, usize)], ha
     if rng.chance(1, 8) {
         // stall: a long run of Interrupted
         plan.eintr.push((place(rng) as u64, 16 + rng.below(48) as u32));
+    }
+    if rng.chance(1, 10) {
+        // storm: single interruptions at every k-th read call over a long stretch (a counter of
+        // retries that is never reset, a budget of interruptions per decode)
+        let k = 2 + rng.below(5);
+        let from = rng.below(8);
+        let n = 20 + rng.below(200);
+        for i in 0..n {
+            plan.eintr.push((from + i * k, 1));
+        }
     }
     if hard {
         match rng.below(4) {
